@@ -288,6 +288,15 @@ case("constructor: independent attribute initialisations are put in one order", 
 case("constructor order kept: a value reads another attribute", {"m": "class A(object):\n    def __init__(self, t):\n        self._z = t\n        self._a = self._z\n"}, "m", "__init__", has=["self._z = t\n    self._a = self._z"])
 case("constructor order kept: a value is computed by an arbitrary call", {"m": "class A(object):\n    def __init__(self, t, g):\n        self._z = g()\n        self._a = g()\n"}, "m", "__init__", has=["self._z = g()\n    self._a = g()"])
 
+# -- module-level constant displays --------------------------------------------------------------------------------------------------------------------
+_MC = "from . import constants\n_T = {constants.A: [constants.B], constants.C: [constants.B, constants.C]}\nclass D(object):\n    def _w(self, cmds, x):\n        while True:\n            c = x()\n            if c in cmds:\n                return c\n"
+_KC = "A = b'A'\nB = b'B'\nC = b'C'\n"
+case("module constant display written out where it is only read", {"constants": _KC, "m": _MC + "    def f(self, x):\n        return self._w(_T[constants.C], x)\n"}, "m", "f", has=["[constants.B, constants.C]"], lacks=["_T"])
+case("module constant display kept: the callee changes its parameter in place", {"constants": _KC, "m": _MC.replace("            if c in cmds:", "            cmds.append(c)\n            if c in cmds:") + "    def f(self, x):\n        return self._w(_T[constants.C], x)\n"},
+     "m", "f", has=["_T[constants.C]"])
+case("module constant display kept: the table is updated somewhere", {"constants": _KC, "m": _MC + "    def f(self, x):\n        return self._w(_T[constants.C], x)\n    def g(self):\n        _T[constants.A] = []\n"}, "m", "f", has=["_T[constants.C]"])
+case("module constant display kept: the value is returned (it escapes)", {"constants": _KC, "m": _MC + "    def f(self, x):\n        return _T[constants.C]\n"}, "m", "f", has=["_T[constants.C]"])
+
 
 def main():
     bad = 0
